@@ -365,8 +365,11 @@ static void run_c17_life(void)
         int what = (int)plan_n(3);
         if (what == 1) {
             /* replace the main scheduler of the joined stream */
-            int nk = (int)plan_n(4);
-            ABT_OK(ABT_xstream_set_main_sched_basic(xs, kinds[nk], 1, &pool));
+            int nk = (int)plan_n(5);
+            if (nk == 4)
+                ABT_OK(ABT_xstream_set_main_sched(xs, wl_make_user_sched(1, &pool))); /* a user-defined scheduler */
+            else
+                ABT_OK(ABT_xstream_set_main_sched_basic(xs, kinds[nk], 1, &pool));
             sim_note("replace->%s ", wl_sched_names[nk]);
         }
         if (c + 1 < cycles) {
@@ -387,8 +390,11 @@ static void run_c17_life(void)
         ABT_pool np;
         ABT_OK(ABT_xstream_self(&self));
         ABT_OK(ABT_pool_create_basic(pk[plan_n(3)], ABT_POOL_ACCESS_MPMC, ABT_TRUE, &np));
-        int nk = (int)plan_n(4);
-        ABT_OK(ABT_xstream_set_main_sched_basic(self, kinds[nk], 1, &np));
+        int nk = (int)plan_n(5);
+        if (nk == 4)
+            ABT_OK(ABT_xstream_set_main_sched(self, wl_make_user_sched(1, &np)));
+        else
+            ABT_OK(ABT_xstream_set_main_sched_basic(self, kinds[nk], 1, &np));
         sim_note("self-replace->%s ", wl_sched_names[nk]);
         sim_progress();
         run_work_on(np, k, "after replacing the caller's own main scheduler");
